@@ -575,10 +575,73 @@ def rule_block_axis(repo: Repo, rep: Report, classes: List[ClassInfo]) -> int:
                         if any(isinstance(e, ast.Constant) and isinstance(e.value, int) and not isinstance(e.value, bool) for e in lead):
                             bad = sub
                             break
+                if bad is None:
+                    # per-block pieces joined along the batch axis: cat / stack (dim 0, the default) over a collection that is
+                    # built by running over the block axis of the view
+                    def over_blocks(it: ast.AST) -> bool:
+                        t_ = unparse(it)
+                        return any(k_ in t_ for k_ in (f"{par}.shape[-2]", f"{par}.shape[1]", f"{par}.size(-2)", f"{par}.size(1)", f"{par}.unbind(-2)", f"{par}.unbind(1)", f"{par}.unbind(dim=-2)", f"{par}.unbind(dim=1)"))
+
+                    block_lists = set()
+                    for st_ in ast.walk(fn):
+                        if isinstance(st_, ast.Assign) and isinstance(st_.targets[0], ast.Name) and isinstance(st_.value, (ast.ListComp, ast.GeneratorExp)) and any(over_blocks(g_.iter) for g_ in st_.value.generators):
+                            block_lists.add(st_.targets[0].id)
+                        if isinstance(st_, ast.For) and over_blocks(st_.iter):
+                            for x_ in ast.walk(st_):
+                                if isinstance(x_, ast.Call) and isinstance(x_.func, ast.Attribute) and x_.func.attr in ("append", "extend") and isinstance(x_.func.value, ast.Name):
+                                    block_lists.add(x_.func.value.id)
+                    for j_ in ast.walk(fn):
+                        if isinstance(j_, ast.Call) and call_name(j_) in ("torch.cat", "torch.stack", "torch.concat", "torch.vstack") and j_.args:
+                            dim_ = next((k_.value for k_ in j_.keywords if k_.arg in ("dim", "axis")), j_.args[1] if len(j_.args) > 1 else None)
+                            dv_ = 0 if dim_ is None else (dim_.value if isinstance(dim_, ast.Constant) else None)
+                            src_ = j_.args[0]
+                            from_blocks = (isinstance(src_, (ast.ListComp, ast.GeneratorExp)) and any(over_blocks(g_.iter) or (isinstance(g_.iter, ast.Name) and g_.iter.id in block_lists) for g_ in src_.generators)) or (isinstance(src_, ast.Name) and src_.id in block_lists)
+                            if from_blocks and dv_ == 0:
+                                bad = j_
+                                rep.violation("BLOCK-AXIS", fi, f"{ci.name}.{m}::{fn.name}: {unparse(j_)[:80]}", f"`{unparse(j_)[:60]}` joins the results for the individual blocks along axis 0, the batch axis of the (*lead, blocks, n) view: the result is block-major, and when it is read back as (batch, blocks * k) the messages of different rows and blocks are interleaved (a row's output depends on the other rows)", node=j_)
+                                break
+                    if bad is not None:
+                        continue
                 if bad is not None:
                     rep.violation("BLOCK-AXIS", fi, f"{ci.name}.{m}::{fn.name}: {unparse(bad)}", f"the block function reads `{unparse(bad)}`: a fixed index on the block axis of the (*lead, blocks, n) view - with several blocks per row only that block is processed and the others are dropped (the result differs from per-block evaluation and the layout is not rejected)", node=bad)
                 else:
                     rep.ok("BLOCK-AXIS", fi, f"{ci.name}.{m}::{fn.name}({par})", "no fixed index on a leading or block axis of the blocked view", node=fn, nontrivial=False)
+    return n
+
+
+def rule_chunk_cover(repo: Repo, rep: Report, classes: List[ClassInfo]) -> int:
+    """A loop that works through the rows in slices `[s * L : (s + 1) * L]` for `s in range(N // L)` covers floor(N / L) * L
+    rows: unless N is known to be a multiple of L (a `% L` test in the function) or the count is a ceiling, the last
+    N mod L rows are never processed and keep their initial values - the result for a row then depends on how many rows
+    the batch has and where the row stands in it."""
+    n = 0
+    seen = set()
+    funcs = [(ci.name, fi) for ci in classes for fi in ci.methods.values()]
+    for ci in classes:
+        for f_ in ci.module.functions.values():
+            if id(f_) not in seen:
+                seen.add(id(f_))
+                funcs.append((ci.module.relpath, f_))
+    for owner, fi in funcs:
+        for lp in [x for x in ast.walk(fi.node) if isinstance(x, ast.For) and isinstance(x.target, ast.Name) and isinstance(x.iter, ast.Call) and isinstance(x.iter.func, ast.Name) and x.iter.func.id == "range" and len(x.iter.args) == 1]:
+            cnt = lp.iter.args[0]
+            while isinstance(cnt, ast.Call) and isinstance(cnt.func, ast.Name) and cnt.func.id in ("max", "int") and cnt.args:
+                cnt = next((a for a in cnt.args if not isinstance(a, ast.Constant)), cnt.args[0])
+            if not (isinstance(cnt, ast.BinOp) and isinstance(cnt.op, ast.FloorDiv)):
+                continue
+            total, size = unparse(cnt.left), unparse(cnt.right)
+            v = lp.target.id
+            sliced = [sl for sl in ast.walk(lp) if isinstance(sl, (ast.Slice, ast.Call)) and ((isinstance(sl, ast.Slice) and sl.lower is not None and sl.upper is not None and f"{v} * {size}" in unparse(sl.lower) and (f"({v} + 1) * {size}" in unparse(sl.upper) or f"{v} * {size} + {size}" in unparse(sl.upper))) or (isinstance(sl, ast.Call) and isinstance(sl.func, ast.Name) and sl.func.id == "slice" and len(sl.args) == 2 and f"{v} * {size}" in unparse(sl.args[0]) and f"({v} + 1) * {size}" in unparse(sl.args[1])))]
+            if not sliced:
+                continue
+            n += 1
+            ftxt = unparse(fi.node)
+            ceil_ = f"+ {size} - 1" in total or f"{size} - 1 +" in total or total.startswith("-(") or "ceil" in unparse(lp.iter)
+            guarded = f"% {size}" in ftxt
+            if ceil_ or guarded:
+                rep.ok("CHUNK-COVER", fi, f"{owner}.{fi.name}: for {v} in {unparse(lp.iter)} over slices of {size}", "the slices cover every row (ceiling count, or the length is tested to be a multiple of the slice)", node=lp, nontrivial=False)
+            else:
+                rep.violation("CHUNK-COVER", fi, f"{owner}.{fi.name}: for {v} in {unparse(lp.iter)} over slices of {size}", f"the loop runs over floor({total} / {size}) slices of {size} rows and nothing handles the remaining {total} mod {size} rows: they keep their initial values, so the result for a row depends on the number of rows in the batch and on the row's position", node=lp)
     return n
 
 
@@ -720,6 +783,7 @@ def run(repo: Repo, rep: Report, tier: str) -> None:
     n += rule_zero_path(repo, rep)
     n += rule_index_broadcast(repo, rep, classes)
     n += rule_block_axis(repo, rep, classes)
+    n += rule_chunk_cover(repo, rep, classes)
     n += rule_row_carry(repo, rep, classes)
     n += rule_subset_index(repo, rep)
     rep.floor("C20 rule instances", n, 85)
